@@ -218,8 +218,8 @@ func run(c *mon.Case) {
 
 func main() {
 	mon.Main(mon.Spec{
-		Prop: "C23",
-		Rule: "case = UI session over a generated program with several basic blocks of different sizes and a history of 60 'move a b' commands executed through the real command loop (instruction moves between nearby lines, block moves between headers, mixed kinds, blank lines, out-of-range and random line numbers); non-trivial = history with >=1 accepted block move across blocks of different size and >=5 accepted instruction moves; distinct by program+moves",
+		Prop:        "C23",
+		Rule:        "case = UI session over a generated program with several basic blocks of different sizes and a history of 60 'move a b' commands executed through the real command loop (instruction moves between nearby lines, block moves between headers, mixed kinds, blank lines, out-of-range and random line numbers); non-trivial = history with >=1 accepted block move across blocks of different size and >=5 accepted instruction moves; distinct by program+moves",
 		Explanation: "oracle after every command: the listing text (marks ignored) must equal an independent rendering built from the deps public API only (header 'Block <position>: 0x<begin>', instruction text and bytes, single blank separators, trailing blank tolerated) and a fresh lines.NewView of the same code; a command answered with 'error:' must leave the text unchanged; every instruction line's (block, instruction) metadata must address the instruction whose text it shows",
 		Assumptions: []string{"listing read through the hook disassemble.VerifListing", "line format transcribed from the statement and the documented layout"},
 		Cases: func(t string) int {
